@@ -72,7 +72,7 @@ def run(ctx):
     r2 = ctx.tlc("MC_FactStore", "MC_FactStore_facts.cfg", timeout=600)
     ctx.require_actions(storage_util.parse_action_coverage(r2), ["OpenFactsAny", "FInsertAny", "FDeleteAny", "WriteFacts"])
     replay(ctx, vh, r2.replays, "facts-fp")
-    nsim, depth = (12, 200) if not ctx.thorough else (160, 300)
+    nsim, depth = (24, 200) if not ctx.thorough else (160, 300)
     sim = simulate(ctx, "Sim_FactStore.cfg" if not ctx.thorough else "Sim_FactStore_thorough.cfg",
                    max(1, nsim // 4), depth, "sim")
     writes = [sum(1 for s in b["h"] if s["o"] == "write" and s["r"] == "ok") for b in sim]
